@@ -151,7 +151,10 @@ fn check_quote(c: &QuoteCase) -> Outcome {
     if cmd_pos {
         script.push_str(&format!("unalias zz\n{}() {{ probe called \"$@\"; }}\nx=1 {q} arg\n{q}\n", sq(s)));
     }
-    let r = vsys::run(&vsys::Setup::script(&script));
+    // HOME is set so that an unquoted tilde (also after a colon in an assignment) would visibly expand
+    let mut setup = vsys::Setup::script(&script);
+    setup.env_vars.push(("HOME".into(), "/home/user".into()));
+    let r = vsys::run(&setup);
     if let Some(p) = &r.panic {
         return Outcome::fail(format!("panic while reading quote({}) = {}: {p}", show(s), show(&q)));
     }
@@ -474,6 +477,8 @@ pub enum Op {
     Export { n: u8, v: Option<String> },
     Readonly { n: u8, v: Option<String> },
     Typeset { n: u8, x: bool, r: bool, v: Option<String> },
+    /// `typeset [-x] -- 'NAME'=value` for a variable name that is not a plain name
+    TypesetOdd { name: u8, x: bool, v: String },
     Alias { name: AliasName, v: String },
     Func { name: FuncName, body: C },
     FuncReadonly { name: FuncName },
@@ -857,6 +862,10 @@ pub fn render_defs(c: &ListCase) -> String {
                     ro[idx(*n)] = true;
                 }
             },
+            Op::TypesetOdd { name, x, v } => {
+                let n = ODD_NAMES[*name as usize % ODD_NAMES.len()];
+                s.push_str(&format!("typeset {}-- {}={}\n", if *x { "-x " } else { "" }, sq(n), sq(v)));
+            }
             Op::Typeset { n, x, r, v } => {
                 if v.is_some() && ro[idx(*n)] {
                     continue;
@@ -988,7 +997,8 @@ fn top_level_lines(text: &str) -> Vec<String> {
 
 type VarView = BTreeMap<String, (Option<Vec<String>>, bool, bool, bool)>;
 
-const MY_VARS: [&str; 4] = ["v1", "v2", "v3", "v4"];
+pub const ODD_NAMES: [&str; 5] = ["-n", "-a b", "a b", "q$", "-x~"];
+const MY_VARS: [&str; 9] = ["v1", "v2", "v3", "v4", "-n", "-a b", "a b", "q$", "-x~"];
 
 fn my_vars(s: &Snap) -> VarView {
     s.vars.iter().filter(|(k, _)| MY_VARS.contains(&k.as_str())).map(|(k, v)| (k.clone(), v.clone())).collect()
@@ -1149,9 +1159,13 @@ fn check_listing(c: &ListCase) -> Outcome {
             let view = |s: &Snap| -> BTreeMap<String, (Vec<String>, bool)> {
                 my_vars(s).into_iter().filter_map(|(k, v)| v.0.clone().map(|x| (k, (x, v.3)))).collect()
             };
-            let want = view(before);
+            // `set` lists only variables whose names are valid identifiers
+            // (set.rs filters with IsName; anything else could not be re-input
+            // as an assignment), so only those are "what it lists".
+            let mut want = view(before);
+            want.retain(|k, _| yash_syntax::parser::lex::is_name(k));
             let got = view(after);
-            for v in my_vars(before).values().filter(|v| v.0.is_some()) {
+            for (_, v) in my_vars(before).iter().filter(|(k, v)| v.0.is_some() && yash_syntax::parser::lex::is_name(k)) {
                 note_var(&mut listed, v);
             }
             (want != got).then(|| format!("variables before (name -> value, is_array) {want:?}, recreated {got:?}"))
@@ -1413,6 +1427,7 @@ fn arb_op(p: Printer) -> BoxedStrategy<Op> {
         w[2] => (n(), optv()).prop_map(|(n, v)| Op::Export { n, v }),
         w[3] => (n(), optv()).prop_map(|(n, v)| Op::Readonly { n, v }),
         w[4] => (n(), any::<bool>(), prop::bool::weighted(0.3), optv()).prop_map(|(n, x, r, v)| Op::Typeset { n, x, r, v }),
+        (w[4] / 2).max(if w[4] > 0 { 1 } else { 0 }) => (0u8..5, any::<bool>(), arb_val()).prop_map(|(name, x, v)| Op::TypesetOdd { name, x, v }),
         w[5] => (arb_alias_name(), arb_val()).prop_map(|(name, v)| Op::Alias { name, v }),
         w[6] => (arb_func_name(), arb_c(2)).prop_map(|(name, body)| Op::Func { name, body }),
         w[7] => arb_func_name().prop_map(|name| Op::FuncReadonly { name }),
